@@ -41,8 +41,11 @@ MANIFEST = {
                   "destination after every step and all registers at the end (this also exposes unintended mutation of "
                   "non-receivers).",
     "level_note": "Trusted: Coq kernel + vm_compute; the hand-written model; harness. Partial: Python object aliasing is "
-                  "harness-checked, not a theorem; for moving windows, statistics, fill_missing and alter_num_variants only "
-                  "well-formedness/trimming is proved, their values are tied by the correspondence and the falsifier.",
+                  "harness-checked, not a theorem; the values of the statistics across variants, of mov_sum/mov_avg/mov_prod and of "
+                  "fill_missing(constant/previous/next) over the whole series or a contiguous range are proved pointwise on "
+                  "the total map (proofs/SeriesWinProofs.v, proofs/SeriesFillProofs.v); for fill_missing(nearest/linear/"
+                  "from_series), non-contiguous spans and alter_num_variants only well-formedness/trimming is proved, their "
+                  "values are tied by the correspondence and the falsifier.",
 }
 
 NREG = 3
